@@ -710,3 +710,28 @@ func unescapeName(s string) []byte {
 }
 
 var _ = binary.BigEndian
+
+// nameFieldsOf returns the domain names held in the RDATA fields of rr according to the plan.
+func nameFieldsOf(rr dns.RR, pl *specPlan) []string {
+	var out []string
+	v := reflect.ValueOf(rr).Elem()
+	for _, s := range pl.Steps {
+		switch s.Codec {
+		case "UnpackDomainName":
+			if f := v.FieldByName(s.Field); f.IsValid() && f.Kind() == reflect.String {
+				out = append(out, f.String())
+			}
+		case "unpackDataDomainNames":
+			if f := v.FieldByName(s.Field); f.IsValid() && f.Kind() == reflect.Slice {
+				for i := 0; i < f.Len(); i++ {
+					out = append(out, f.Index(i).String())
+				}
+			}
+		case "unpackIPSECGateway":
+			if f := v.FieldByName("GatewayHost"); f.IsValid() {
+				out = append(out, f.String())
+			}
+		}
+	}
+	return out
+}
